@@ -137,9 +137,38 @@ def derive_seed(*parts):
 # --------------------------------------------------------------------------------------
 # findings
 # --------------------------------------------------------------------------------------
+class KnownSet:
+    """Signatures of status=known findings; '*' wildcards allowed (fnmatch)."""
+
+    def __init__(self, entries):
+        self.entries = entries  # list of (pattern, what, id)
+        self._cache = {}
+
+    def match(self, sig):
+        if sig not in self._cache:
+            import fnmatch
+
+            hit = None
+            for pat, what, fid in self.entries:
+                if sig == pat or fnmatch.fnmatchcase(sig, pat):
+                    hit = (pat, what, fid)
+                    break
+            self._cache[sig] = hit
+        return self._cache[sig]
+
+    def __contains__(self, sig):
+        return self.match(sig) is not None
+
+    def __getitem__(self, sig):
+        return self.match(sig)[1]
+
+    def finding_id(self, sig):
+        return self.match(sig)[2]
+
+
 def load_known(prop_id):
     path = os.path.join(ROOT, "known_findings.jsonl")
-    known = {}
+    entries = []
     if os.path.exists(path):
         for line in open(path):
             line = line.strip()
@@ -147,8 +176,10 @@ def load_known(prop_id):
                 continue
             rec = json.loads(line)
             if rec.get("property") == prop_id and rec.get("status") == "known":
-                known[rec["signature"]] = rec.get("what", "")
-    return known
+                sigs = rec["signature"] if isinstance(rec["signature"], list) else [rec["signature"]]
+                for sg in sigs:
+                    entries.append((sg, rec.get("what", ""), rec.get("id") or sg))
+    return KnownSet(entries)
 
 
 # --------------------------------------------------------------------------------------
@@ -200,9 +231,14 @@ def run_case(part, case, res, nontriv, classes, known, excluded, notes):
         if len(notes) < 20 and n not in notes:
             notes.append(n)
     new = []
+    survey = bool(os.environ.get("VP_SURVEY"))
     for sig, detail in ctx.violations:
+        if survey:  # triage aid: count every signature, never stop
+            res["known_hits"]["survey:" + sig] = res["known_hits"].get("survey:" + sig, 0) + 1
+            continue
         if sig in known:
             res["known_hits"][sig] = res["known_hits"].get(sig, 0) + 1
+            res.setdefault("known_cases", {}).setdefault(sig, dict(case=case, detail=detail))
         elif sig in excluded:
             pass
         else:
@@ -447,6 +483,25 @@ def run_property(prop_id, tier, seed, only_parts=None, n_scale=1.0):
             )
         violations.append((sig, v["detail"], v["case"], part_name, path))
 
+    # incidence guard for statistical known findings
+    known_cases = {}
+    for r in results:
+        for sig, kc in (r.get("known_cases") or {}).items():
+            known_cases.setdefault(sig, (r["part"], kc))
+    for prefix, cls_name, max_frac, min_den in getattr(mod, "RATE_LIMITS", []):
+        hits = sum(n for sig, n in known_seen.items() if sig.startswith(prefix))
+        den = classes_all.get(cls_name, 0)
+        if den >= min_den and hits / den > max_frac:
+            sig0 = next(sig for sig in known_seen if sig.startswith(prefix))
+            part_name, kc = known_cases.get(sig0, (None, None))
+            rdir = os.path.join(os.environ.get("VP_REPLAY_DIR") or os.path.join(ROOT, "replays"), prop_id)
+            os.makedirs(rdir, exist_ok=True)
+            path = os.path.join(rdir, f"rate-{slug(prefix)}.json")
+            detail = f"known finding '{prefix}' occurred in {hits} of {den} cases ({hits / den:.1%}), limit {max_frac:.0%}: more frequent than the recorded finding"
+            with open(path, "w") as fh:
+                json.dump(dict(property=prop_id, part=part_name, signature=f"rate:{prefix}", detail=detail, case=(kc or {}).get("case")), fh, indent=1, default=_json_default)
+            violations.append((f"rate:{prefix}", detail, (kc or {}).get("case"), part_name, path))
+
     # vacuity guard: a part whose non-trivial share is below its declared minimum is a
     # harness problem, not a pass
     for p in parts:
@@ -460,8 +515,22 @@ def run_property(prop_id, tier, seed, only_parts=None, n_scale=1.0):
                 )
 
     wall = time.time() - t0
+    by_id = {}
     for sig, n in sorted(known_seen.items()):
-        lines.append(f"KNOWN-FINDING: property={prop_id} {sig} :: {known[sig]} (re-observed {n}x)")
+        if sig.startswith("survey:"):
+            lines.append(f"SURVEY {sig[7:]} x{n}")
+            continue
+        g = by_id.setdefault(known.finding_id(sig), dict(what=known[sig], n=0, sigs=[]))
+        g["n"] += n
+        g["sigs"].append(sig)
+    for fid, g in sorted(by_id.items()):
+        lines.append(f"KNOWN-FINDING: property={prop_id} {fid} {g['what']} (re-observed {g['n']}x as {', '.join(g['sigs'])})")
+    dump = os.environ.get("VP_DUMP_KNOWN")
+    if dump:
+        os.makedirs(dump, exist_ok=True)
+        for sig, (part_name, kc) in known_cases.items():
+            with open(os.path.join(dump, f"{slug(str(known.finding_id(sig)))}_{slug(sig)}.json"), "w") as fh:
+                json.dump(dict(property=prop_id, part=part_name, signature=sig, detail=kc["detail"], case=kc["case"]), fh, indent=1, default=_json_default)
     for sig, detail, case, part_name, path in violations:
         lines.append(f"VIOLATION property={prop_id} replay={path}")
         lines.append(f"  signature={sig} part={part_name} detail={detail[:300]}")
